@@ -1000,10 +1000,39 @@ def g_misc2(s, P):
     return P
 
 
+def g_errstate(s, P):
+    """dadi calls made inside the caller's own numpy.errstate block, on keys other clients hit too (cache hit or miss is history)"""
+    kind = s.choice(['raise', 'warn', 'mixed'])
+    n = s.choice([4, 6])
+    fs = P.add('mk_spectrum', s.randint(0, 3), [n + 1], 0.0, False, None, 5.0, False, True)
+    for _ in range(s.randint(2, 4)):
+        r = s.random()
+        if r < 0.35:
+            P.add('ORACLE.errstate_scope', kind, 'S.project', fs, [s.randint(2, n)])
+        elif r < 0.5:
+            P.add('ORACLE.errstate_scope', kind, 'cached_projection', s.choice([2, 3, 4]), s.choice([6, 8]), s.choice([1, 2]))
+        elif r < 0.6:
+            P.add('ORACLE.errstate_scope', kind, 'LP.projection_matrix', s.choice([4, 6]), 2, 0)
+        elif r < 0.7:
+            P.add('ORACLE.errstate_scope', kind, 'S.fold', fs)
+        elif r < 0.8:
+            d = P.add('mk_spectrum', s.randint(0, 3), [n + 1], 0.2, False)
+            P.add('ORACLE.errstate_scope', kind, s.choice(['ll_multinom', 'optimal_sfs_scaling', 'linear_Poisson_residual']), fs, d)
+        else:
+            pts = s.choice(PTS)
+            xx = P.add('grid', pts)
+            phi = P.add('phi_1D', xx)
+            if s.chance(0.5):
+                P.add('ORACLE.errstate_scope', kind, 'Integration.one_pop', phi, xx, 0.02, 2.0)
+            else:
+                P.add('ORACLE.errstate_scope', kind, 'from_phi', phi, [s.choice(NS)], T(xx))
+    return P
+
+
 TEMPLATES = [
     (g_chain1d, 10), (g_regrid, 4), (g_chain2d, 12), (g_chain3d, 7), (g_chain4d, 6), (g_chain5d, 2), (g_spectrum, 10), (g_numerics, 7),
     (g_badcalls, 5), (g_lowpass, 4), (g_lowpass_model, 2), (g_lowpass_dd, 3), (g_optgrid, 2), (g_nlopt, 2), (g_library, 6), (g_datadict, 5), (g_opthelp, 4), (g_objective, 3), (g_inbreeding, 4), (g_extrap, 5), (g_demes, 6), (g_godambe, 10), (g_godambe_neg, 2), (g_godambe_real, 2),
-    (g_optimisers, 3), (g_xchrom, 3), (g_persist, 4), (g_vcf, 4), (g_lowpass_sim, 3), (g_misc2, 4),
+    (g_optimisers, 3), (g_xchrom, 3), (g_persist, 4), (g_vcf, 4), (g_lowpass_sim, 3), (g_misc2, 4), (g_errstate, 4),
 ]
 
 
